@@ -38,3 +38,56 @@ Theorem C14_push_code_closed : forall (dst body : code) (n : N),
   forall t, In t (local_targets (map (rename_line n) body)) ->
             In t (all_labels (map (rename_line n) body ++ [Lbl (".endofinline" ++ string_of_N n)%string])).
 Proof. exact push_code_closed. Qed.
+
+(** * behaviour on the 6502 semantics (M6502/Sem.v): an inlined expansion executes like its body.
+    Proofs in Proofs/InlineSemFacts.v; [runb] is [Sem.run] re-expressed with a call depth so that
+    "the body reached its end" can be said ([run_runb] proves them equal). *)
+From CC Require Import M6502.Sem Proofs.InlineSemFacts.
+
+Theorem C14_runb_is_run : forall cfg prog inl_sem ext_call fuel fname c pc stack s tr cy,
+  run cfg prog inl_sem ext_call fuel fname c pc stack s tr cy
+  = out_of (runb cfg prog inl_sem ext_call fuel fname c pc stack (length stack) s tr cy).
+Proof. exact run_runb. Qed.
+
+(** renaming the local labels of a body injectively never changes its execution (same state, same
+    cycles, same outcome kind; traces equal once the events of branches/jumps, whose protection
+    the renaming clears, are erased); exactly equal when no branch of the body is protected *)
+Theorem C14_rename_invariant : forall cfg prog inl_sem ext_call r c, inj_on r c ->
+  forall fuel fname pc stack s tr cy,
+  outcome_sim keep_nonjump (run cfg prog inl_sem ext_call fuel fname c pc stack s tr cy)
+                           (run cfg prog inl_sem ext_call fuel fname (map (rename_sline r) c) pc stack s tr cy).
+Proof. exact run_rename. Qed.
+
+Theorem C14_rename_invariant_exact : forall cfg prog inl_sem ext_call r c, inj_on r c -> unprot_jumps c ->
+  forall fuel fname pc stack s tr cy,
+  run cfg prog inl_sem ext_call fuel fname (map (rename_sline r) c) pc stack s tr cy
+  = run cfg prog inl_sem ext_call fuel fname c pc stack s tr cy.
+Proof. exact run_rename_eq. Qed.
+
+(** the model's renaming is that renaming *)
+Theorem C14_model_rename : forall n c sc, slines_of c = Some sc -> jump_ops_nonempty c ->
+  slines_of (map (rename_line n) c) = Some (map (rename_sline (suffix_of n)) sc).
+Proof. exact slines_of_rename. Qed.
+
+(** a closed block with fresh labels placed inside a larger code runs exactly as it runs alone,
+    and when it reaches its end the larger code continues right after it (calls, RTS, RTI included) *)
+Theorem C14_embedding : forall cfg prog inl_sem ext_call fname0 pre body post base,
+  sclosed body -> (forall l, In l (slabels body) -> ~ In l (slabels pre)) ->
+  forall fuel k s tr cy, k <= length body ->
+  emb_res cfg prog inl_sem ext_call fname0 pre body post base
+          (runb cfg prog inl_sem ext_call fuel fname0 body k base 0 s tr cy)
+          (run cfg prog inl_sem ext_call fuel fname0 (pre ++ body ++ post) (length pre + k) base s tr cy).
+Proof. exact embed_run. Qed.
+
+(** the expansion [push_code dst body n], entered at [length dst], behaves like the body followed by
+    its exit label run on its own, for every state, fuel, caller stack and continuation [post] *)
+Theorem C14_expansion_behaves_like_body : forall cfg prog inl_sem ext_call (dst body : code) (n : N) sd sb,
+  slines_of dst = Some sd -> slines_of body = Some sb -> jump_ops_nonempty body ->
+  (forall t, In t (local_targets body) -> In t (all_labels body) \/ t = ".endof"%string) ->
+  (forall l, In l (all_labels dst) -> forall l0, l <> suffix_of n l0) ->
+  let blk' := map (rename_sline (suffix_of n)) (sb ++ [SLbl ".endof"%string]) in
+  slines_of (push_code dst body n) = Some (sd ++ blk') /\
+  nth_error (sd ++ blk') (length sd + length sb) = Some (SLbl (endof_label n)) /\
+  length blk' = S (length sb) /\
+  forall post, block_spec cfg prog inl_sem ext_call keep_nonjump sd blk' post (sb ++ [SLbl ".endof"%string]).
+Proof. exact push_code_run. Qed.
